@@ -678,15 +678,9 @@ impl MutableArchive {
                 continue;
             }
 
-            // Read the file data
-            let file_data = match self.read_file(filename) {
-                Ok(data) => data,
-                Err(_) => {
-                    // Skip files we can't read
-                    log::warn!("Skipping file {filename} during compaction (read error)");
-                    continue;
-                }
-            };
+            // Read the file data. A file that cannot be read must stop the compaction: the
+            // compacted archive replaces the original, so leaving the file out would lose it.
+            let file_data = self.read_file(filename)?;
 
             // Determine compression and encryption from block flags
             let compression = if block_entry.is_compressed() {
